@@ -8,14 +8,13 @@
 #include <fcppt/array/map.hpp>
 #include <fcppt/array/object.hpp>
 #include <fcppt/array/push_back.hpp>
-#include <fcppt/record/element.hpp>
-#include <fcppt/record/get.hpp>
-#include <fcppt/record/make_label.hpp>
-#include <fcppt/record/map.hpp>
-#include <fcppt/record/multiply_disjoint.hpp>
-#include <fcppt/record/object.hpp>
-#include <fcppt/record/permute.hpp>
+#include <fcppt/array/apply.hpp>
+#include <fcppt/array/make.hpp>
+#include <fcppt/tuple/apply.hpp>
 #include <fcppt/tuple/concat.hpp>
+#include <fcppt/tuple/from_array.hpp>
+#include <fcppt/tuple/invoke.hpp>
+#include <fcppt/tuple/make.hpp>
 #include <fcppt/tuple/get.hpp>
 #include <fcppt/tuple/init.hpp>
 #include <fcppt/tuple/map.hpp>
@@ -167,9 +166,8 @@ std::string op_tuple(std::string const &_op, line_t const &L)
                 auto b{mk_tup<T, decltype(N2)::value>(L.args[1])};
                 mark(b);
                 g_log.clear();
-                // only the all-rvalue instantiation exists: the enable_if of tuple::concat applies is_object to `Tuples` with their references
-                need(L.cat(0) == 'r' && L.cat(1) == 'r');
-                auto const r{fcppt::tuple::concat(std::move(a), std::move(b))};
+                // every category (lvalue tuples since /repo fix ee4df3d)
+                auto const r{with_cats2<T::copyable>(L, a, b, [](auto &&x, auto &&y) { return fcppt::tuple::concat(FWD(x), FWD(y)); })};
                 event_log const log{g_log};
                 return finish("-", tup_slots(r), {tup_slots(a), tup_slots(b)}, log);
               });
@@ -289,184 +287,129 @@ std::string op_array(std::string const &_op, line_t const &L)
   throw bad_op{};
 }
 
-FCPPT_RECORD_MAKE_LABEL(la0);
-FCPPT_RECORD_MAKE_LABEL(la1);
-FCPPT_RECORD_MAKE_LABEL(la2);
-FCPPT_RECORD_MAKE_LABEL(lb0);
-FCPPT_RECORD_MAKE_LABEL(lb1);
 
-template <typename T, typename... Ls>
-using rec_of = fcppt::record::object<fcppt::record::element<Ls, T>...>;
+// ---------------------------------------------------------------- tuple / array: invoke, apply, from_array, make, init
 
-template <typename T, typename... Ls>
-rec_of<T, Ls...> mk_rec(arg_t const &_a)
-{
-  need(_a.ids.size() == sizeof...(Ls));
-  std::size_t i{0};
-  // braced init: evaluated left to right
-  return rec_of<T, Ls...>{(Ls{} = T{_a.ids[i++]})...};
-}
-template <typename T, typename... Ls>
-void mark(rec_of<T, Ls...> &_r)
-{
-  (mark(fcppt::record::get<Ls>(_r)), ...);
-}
-template <typename T, typename... Ls>
-std::string rec_slots(rec_of<T, Ls...> const &_r)
+template <typename T, typename... Ps>
+std::string pairs_slots(fcppt::tuple::object<Ps...> const &_t)
 {
   slots_t s;
-  (s.add(fcppt::record::get<Ls>(_r)), ...);
+  tup_each(_t, [&s](auto const &p) { add_pair(s, p); }, std::index_sequence_for<Ps...>{});
   return s.str();
 }
 
-template <typename T, typename... Ls>
-std::string do_recmap(line_t const &L)
-{
-  auto r0{mk_rec<T, Ls...>(L.args[0])};
-  mark<T, Ls...>(r0);
-  g_log.clear();
-  // only the rvalue instantiation exists: record::map_result applies element_vector to `Record` with its reference
-  need(L.cat(0) == 'r');
-  auto const r{fcppt::record::map(std::move(r0), thru{})};
-  event_log const log{g_log};
-  return finish("-", rec_slots<T, Ls...>(r), {rec_slots<T, Ls...>(r0)}, log);
-}
-
-// the result lists the labels in the order Rs...
-template <typename T, typename In, typename... Rs>
-std::string do_recperm(line_t const &L, In &_in, std::string (*_show)(In const &))
-{
-  g_log.clear();
-  auto const r{with_cat<T::copyable>(L.cat(0), _in, [](auto &&x) { return fcppt::record::permute<rec_of<T, Rs...>>(FWD(x)); })};
-  event_log const log{g_log};
-  return finish("-", rec_slots<T, Rs...>(r), {_show(_in)}, log);
-}
-
-template <typename T, typename... As>
-struct rec_left
-{
-  template <typename... Bs>
-  static std::string mul(line_t const &L)
-  {
-    auto a{mk_rec<T, As...>(L.args[0])};
-    mark<T, As...>(a);
-    auto b{mk_rec<T, Bs...>(L.args[1])};
-    mark<T, Bs...>(b);
-    g_log.clear();
-    auto const r{with_cat<T::copyable>(
-        L.cat(0),
-        a,
-        [&](auto &&x)
-        { return with_cat<T::copyable>(L.cat(1), b, [&](auto &&y) { return fcppt::record::multiply_disjoint(FWD(x), FWD(y)); }); })};
-    event_log const log{g_log};
-    return finish("-", rec_slots<T, As..., Bs...>(r), {rec_slots<T, As...>(a), rec_slots<T, Bs...>(b)}, log);
-  }
-  static std::string go(line_t const &L)
-  {
-    switch (L.n(1))
-    {
-    case 0:
-      return mul<>(L);
-    case 1:
-      return mul<lb0>(L);
-    case 2:
-      return mul<lb0, lb1>(L);
-    default:
-      throw bad_op{};
-    }
-  }
-};
-
 template <typename T>
-std::string op_record(std::string const &_op, line_t const &L)
+std::string op_tuparr_more(std::string const &_op, line_t const &L)
 {
-  if (_op == "recmap")
+  if (_op == "tupinvoke")
   {
     need(L.args.size() == 1 && L.par.empty());
-    switch (L.n(0))
-    {
-    case 0:
-      return do_recmap<T>(L);
-    case 1:
-      return do_recmap<T, la0>(L);
-    case 2:
-      return do_recmap<T, la0, la1>(L);
-    case 3:
-      return do_recmap<T, la0, la1, la2>(L);
-    default:
-      throw bad_op{};
-    }
+    return with_n<3>(
+        L.n(0),
+        [&](auto N) -> std::string
+        {
+          auto t{mk_tup<T, decltype(N)::value>(L.args[0])};
+          mark(t);
+          g_log.clear();
+          std::vector<T> const r{with_cat<true>(L.cat(0), t, [](auto &&x) { return fcppt::tuple::invoke(collect<T>{}, FWD(x)); })};
+          event_log const log{g_log};
+          return finish("-", slots(r), {tup_slots(t)}, log);
+        });
   }
-  if (_op == "recpermute")
+  if (_op == "tupapply2" || _op == "arrapply2")
   {
-    // par = the permutation: result position j takes the element of label par[j]
-    need(L.args.size() == 1 && L.par.size() == L.n(0));
-    std::string key;
-    for (int const p : L.par)
-      key += std::to_string(p);
-    switch (L.n(0))
-    {
-    case 0:
-    {
-      auto in{mk_rec<T>(L.args[0])};
-      return do_recperm<T, rec_of<T>>(L, in, &rec_slots<T>);
-    }
-    case 1:
-    {
-      need(key == "0");
-      auto in{mk_rec<T, la0>(L.args[0])};
-      mark<T, la0>(in);
-      return do_recperm<T, rec_of<T, la0>, la0>(L, in, &rec_slots<T, la0>);
-    }
-    case 2:
-    {
-      auto in{mk_rec<T, la0, la1>(L.args[0])};
-      mark<T, la0, la1>(in);
-      using in_t = rec_of<T, la0, la1>;
-      if (key == "01")
-        return do_recperm<T, in_t, la0, la1>(L, in, &rec_slots<T, la0, la1>);
-      if (key == "10")
-        return do_recperm<T, in_t, la1, la0>(L, in, &rec_slots<T, la0, la1>);
-      throw bad_op{};
-    }
-    case 3:
-    {
-      auto in{mk_rec<T, la0, la1, la2>(L.args[0])};
-      mark<T, la0, la1, la2>(in);
-      using in_t = rec_of<T, la0, la1, la2>;
-      auto const show{&rec_slots<T, la0, la1, la2>};
-      if (key == "012")
-        return do_recperm<T, in_t, la0, la1, la2>(L, in, show);
-      if (key == "021")
-        return do_recperm<T, in_t, la0, la2, la1>(L, in, show);
-      if (key == "102")
-        return do_recperm<T, in_t, la1, la0, la2>(L, in, show);
-      if (key == "120")
-        return do_recperm<T, in_t, la1, la2, la0>(L, in, show);
-      if (key == "201")
-        return do_recperm<T, in_t, la2, la0, la1>(L, in, show);
-      if (key == "210")
-        return do_recperm<T, in_t, la2, la1, la0>(L, in, show);
-      throw bad_op{};
-    }
-    default:
-      throw bad_op{};
-    }
+    need(L.args.size() == 2 && L.n(0) == L.n(1) && L.par.empty());
+    return with_n<3>(
+        L.n(0),
+        [&](auto N) -> std::string
+        {
+          constexpr std::size_t n{decltype(N)::value};
+          if (_op == "tupapply2")
+          {
+            auto a{mk_tup<T, n>(L.args[0])};
+            mark(a);
+            auto b{mk_tup<T, n>(L.args[1])};
+            mark(b);
+            g_log.clear();
+            // the first tuple has to be an rvalue: apply_result applies tuple::size to `Tuples` with its reference (no such instantiation)
+            need(L.cat(0) == 'r');
+            auto const r{with_cat<true>(L.cat(1), b, [&a](auto &&y) { return fcppt::tuple::apply(both{}, std::move(a), FWD(y)); })};
+            event_log const log{g_log};
+            return finish("-", pairs_slots<T>(r), {tup_slots(a), tup_slots(b)}, log);
+          }
+          auto a{mk_arr<T, n>(L.args[0])};
+          mark(a);
+          auto b{mk_arr<T, n>(L.args[1])};
+          mark(b);
+          g_log.clear();
+          auto const r{with_cats2<true>(L, a, b, [](auto &&x, auto &&y) { return fcppt::array::apply(both{}, FWD(x), FWD(y)); })};
+          event_log const log{g_log};
+          slots_t sr;
+          for (auto const &p : r.impl())
+            add_pair(sr, p);
+          return finish("-", sr.str(), {arr_slots(a), arr_slots(b)}, log);
+        });
   }
-  if (_op == "recmuldisj")
+  if (_op == "tupfromarr")
   {
-    need(L.args.size() == 2 && L.par.empty());
-    switch (L.n(0))
+    need(L.args.size() == 1 && L.par.empty());
+    return with_n<3>(
+        L.n(0),
+        [&](auto N) -> std::string
+        {
+          auto a{mk_arr<T, decltype(N)::value>(L.args[0])};
+          mark(a);
+          g_log.clear();
+          auto const r{with_cat<T::copyable>(L.cat(0), a, [](auto &&x) { return fcppt::tuple::from_array(FWD(x)); })};
+          event_log const log{g_log};
+          return finish("-", tup_slots(r), {arr_slots(a)}, log);
+        });
+  }
+  if (_op == "tupmake2" || _op == "arrmake2")
+  {
+    need(L.args.size() == 2 && L.n(0) == 1 && L.n(1) == 1 && L.par.empty());
+    T x{L.args[0].ids[0]};
+    T y{L.args[1].ids[0]};
+    mark(x);
+    mark(y);
+    g_log.clear();
+    std::string res;
+    if (_op == "tupmake2")
     {
-    case 0:
-      return rec_left<T>::go(L);
-    case 1:
-      return rec_left<T, la0>::go(L);
-    case 2:
-      return rec_left<T, la0, la1>::go(L);
-    default:
-      throw bad_op{};
+      auto const r{with_cats2<T::copyable>(L, x, y, [](auto &&a, auto &&b) { return fcppt::tuple::make(FWD(a), FWD(b)); })};
+      res = tup_slots(r);
     }
+    else
+    {
+      auto const r{with_cats2<T::copyable>(L, x, y, [](auto &&a, auto &&b) { return fcppt::array::make(FWD(a), FWD(b)); })};
+      res = arr_slots(r);
+    }
+    event_log const log{g_log};
+    slots_t sx, sy;
+    sx.add(x);
+    sy.add(y);
+    return finish("-", res, {sx.str(), sy.str()}, log);
+  }
+  if (_op == "tupinit" || _op == "arrinit")
+  {
+    need(L.args.empty() && L.par.size() == 1 && L.par[0] >= 0);
+    return with_n<3>(
+        static_cast<std::size_t>(L.par[0]),
+        [&](auto N) -> std::string
+        {
+          constexpr std::size_t n{decltype(N)::value};
+          auto const fn{[]<std::size_t I>(std::integral_constant<std::size_t, I>) { return T{1000 + static_cast<int>(I)}; }};
+          g_log.clear();
+          if (_op == "tupinit")
+          {
+            auto const r{fcppt::tuple::init<tup_n<T, n>>(fn)};
+            event_log const log{g_log};
+            return finish("-", tup_slots(r), {}, log);
+          }
+          auto const r{fcppt::array::init<arr_n<T, n>>(fn)};
+          event_log const log{g_log};
+          return finish("-", arr_slots(r), {}, log);
+        });
   }
   throw bad_op{};
 }
@@ -490,12 +433,9 @@ bool dispatch(std::string const &_op, line_t const &L, std::string &_out)
     return (_out = op_array<T>(_op, L), true);
   if (_op == "arrfromrange")
     return (_out = op_array<T>(_op, L), true);
-  if (_op == "recmap")
-    return (_out = op_record<T>(_op, L), true);
-  if (_op == "recpermute")
-    return (_out = op_record<T>(_op, L), true);
-  if (_op == "recmuldisj")
-    return (_out = op_record<T>(_op, L), true);
+  if (_op == "tupinvoke" || _op == "tupapply2" || _op == "arrapply2" || _op == "tupfromarr" || _op == "tupmake2" || _op == "arrmake2" ||
+      _op == "tupinit" || _op == "arrinit")
+    return (_out = op_tuparr_more<T>(_op, L), true);
   return false;
 }
 }
